@@ -92,7 +92,7 @@ def model_part(ctx):
     ctx.add_tlc(r, "mc_pls_struct")
     if not r.ok:
         raise InfraError("Pls.tla (structure scope): ledger invariant %s fails:\n%s" % (r.violation, r.trace_text[:1500]))
-    z = r.zero_actions()
+    z = ledgerkit.never_taken(r, ("PFit", "PLv", "PCol", "PResid", "PEnd"))
     if z:
         raise InfraError("Pls.tla (structure scope): actions never taken: %s" % z)
     ctx.note("Pls.tla ledger (structure scope): %d states, invariants hold, every action taken" % r.distinct)
@@ -175,11 +175,11 @@ def conformance(ctx, total, parts, first=0, only=None):
         shutil.rmtree(rd, ignore_errors=True)
 
 
-def _would_fail(e):
+def _would_fail(e, impl=True):
     """same-signature duplicates are dropped only when they fail the same way (keeps the rest of the trace under check)"""
     k = e.get("e")
     if k == "Lv":
-        return any(e.get(f, 0) > TOL for f in STRUCT + IMPL)
+        return any(e.get(f, 0) > TOL for f in (STRUCT + IMPL if impl else STRUCT))
     if k == "Col":
         return e["found"] != e["col"] or e["recalcErr"] > TOL or e["allErr"] > TOL
     if k == "Resid":
@@ -204,7 +204,7 @@ def selftests(ctx, events):
     # binding: one logged residual multiplied by 1e6 must be rejected
     blocks = [b for b in tlc.split_blocks(events) if not any(e["e"] in ("Abort", "Shape") for e in b)][:12]
     ev = [e for b in blocks for e in b]
-    ev = [e for e in ev if not ((e["e"] in ("Resid", "Col", "Lv", "End", "Tab")) and _would_fail(e))]
+    ev = [e for e in ev if not ((e["e"] in ("Resid", "Col", "Lv", "End", "Tab")) and _would_fail(e, impl=False))]    # validated with the property layer only
 
     def corrupt_lv(evs):
         for e in evs:
@@ -232,8 +232,13 @@ def run(ctx):
         "ASan/UBSan build: any sanitizer report during a fit is a violation",
     ]
     model_part(ctx)
-    events = conformance(ctx, 400 if ctx.quick else 12000, 8 if ctx.quick else 16)
-    selftests(ctx, events)
+    events = conformance(ctx, 400 if ctx.quick else 40000, 8 if ctx.quick else 16)
+    try:
+        selftests(ctx, events)
+    except InfraError as e:
+        if not ctx.violations:
+            raise
+        ctx.note("binding self-test not conclusive on a trace that already carries violations: %s" % e)
 
 
 def replay(ctx, body):
